@@ -56,6 +56,7 @@ THEOREMS = [
     # scaled reads (System.atoms_prop(..., scale=True) without value) and deepcopy(system): reads do not write, the
     # returned object is fresh for EVERY index form (also a slice of >= 2 atoms, where atoms[index] holds views)
     'C06.sysPropGetScaled_reads_only', 'C06.sysPropGetAtomsScaled_fresh_unchanged', 'C06.sysDeepcopy_spec',
+    'C06.mkSysX_safecopy_operand_unchanged', 'C06.sysPropGetAtomsScaled_decomp',
     # refusals
     'C06.viewSet_len_mismatch_rejects', 'C06.viewSet_atype_lt_one_rejects', 'C06.propSet_atype_lt_one_rejects',
     'C06.assign_shape_mismatch_rejects', 'C06.assign_oob_rejects', 'C06.setItem_keys_mismatch_rejects',
@@ -86,6 +87,16 @@ PARTIAL = {
         'Not decomposed: atoms_extend (symbols read, extend, optional scaled write of pos[self.natoms:], System(...)): '
         'the invariant and the frame are proved and the values are covered on every run by the correspondence and the '
         'oracle.',
+    'scaled reads / System(scale=, safecopy=) / deepcopy(system)':
+        'proved: the invariant (inv_run covers the four operations), reads-do-not-write and the exact value of '
+        'atoms_prop(key, index, scale=True) (sysPropGetScaled_reads_only), frame and freshness of '
+        'atoms_prop(index=, scale=True) for every index form and every outcome (sysPropGetAtomsScaled_fresh_unchanged), '
+        'System(..., safecopy=True) leaving the given atoms alone also with scale=True (mkSysX_safecopy_operand_unchanged), '
+        'deepcopy(system) as Atoms.__deepcopy__ plus the stored tuples (sysDeepcopy_spec). Not restated as a closed form: '
+        'the values of the object returned by atoms_prop(index=, scale=True): sysPropGetAtomsScaled_decomp proves the call '
+        'IS deepcopy(atoms[index]) followed by view[pos] = cartToRel(pos) on the new object, whose building blocks are '
+        'proved (refines_getItem, refines_deepcopy, viewSet_existing_refines) - compared on every run by the correspondence (exactly, on boxes whose inverse is exact '
+        'in double arithmetic) and by the oracle.',
     'aliasing of slices':
         'GetItemRes.slice_is_view states that a basic slice of more than one atom holds the views p.arr[sel] of the '
         "operand's arrays (so writes through either are seen by both, refines_propSet's last clause says exactly "
@@ -124,7 +135,33 @@ RULE = ('histories of 4-30 operations over up to 7 live Atoms and their Systems,
         'atype >= 1, attribute mirror, no aliasing of prop() results and of copying operations) on the real objects after '
         'every step, and at every getter operation: reply never shorter than the number of atom types of the record '
         'model (masses: than System.natypes) and equal to the reply of the specification, in which the padding of the '
-        'stored tuples is lazy and sticky as well; failing histories are shrunk one operation at a time.')
+        'stored tuples is lazy and sticky as well; failing histories are shrunk one operation at a time. '
+        'ROUND 3: (a) the ACCESSOR MATRIX runs first in both correspondence and search: short fixed histories [Atoms of 5 '
+        'atoms with int / float-vector / str / bool extras, System on a sheared, shifted box whose inverse is exact, '
+        '(donor,) ONE accessor call, read-backs] for every accessor (prop get/set with key, prop(index=), Atoms[...] get/set, '
+        'atoms_prop get/set with and without key, with and without value, scale False/True, atoms_ix get/set with Atoms and '
+        'System donors, a_id spelling) x 32 index forms (int, first, last, negative int, numpy integer, slices with open '
+        'ends, negative bounds, steps 2 / -1 / -2, one-atom, empty and overlong slices, lists incl. negative / unordered / '
+        'empty, numpy integer arrays, masks as numpy array and as python list incl. all-False / all-True) plus no-index '
+        'forms, System(scale=, safecopy=), Atoms(safecopy=True), deepcopy(system), atoms_extend; after EVERY operation - '
+        'reads included - the full state of every live object and the aliasing relation are compared (reads must not '
+        'write). (b) index forms, a_id, tuple / bare-str / bare-float spellings of symbols and masses, tuple / 0-1 int / '
+        'numpy spellings of pbc are drawn in the random histories too (the model sees the same call). (c) scaled reads '
+        '(atoms_prop(key, index, scale=True), atoms_prop(index=, scale=True) incl. no index, slices covering >= 2 atoms '
+        'preferred, atoms_df(scale=True / [keys])) are operations of both generators on boxes whose numpy inverse equals '
+        'the rational inverse (others: oracle only, to rounding); a history whose values leave the exact regime is abandoned '
+        'and counted (c06_abandoned_inexact), never reported. (d) REFUSALS are clauses of the oracle: 5% of the search '
+        'operations (and one matrix entry per accessor and index form) must be refused and leave every live object '
+        'unchanged: donor with a different property SET in either direction (subset, empty subset, superset, renamed) '
+        'through Atoms[...]=, prop(index=, value=), atoms_prop(index=, value=, scale False/True), atoms_ix[...]= with Atoms '
+        'and System donors; index and a_id together; mask of wrong length; index out of range; zero slice step; wrong first '
+        'dimension (new and existing keys); wrong trailing shape incl. the right number of cells in the wrong arrangement; '
+        'missing key; per-type table shorter than natypes; absent atom type; too many masses; pbc of wrong length; '
+        'atoms_extend(int, scale=True); negative extension. (e) objects without atoms are operated on (reads, copies, '
+        'zero-row assignment, extension by them); caller-owned arrays handed to copying accessors (prop(key, value=), '
+        'Atoms(safecopy=True)) are overwritten afterwards; keyed reads are checked for shape (int index: trailing shape); '
+        'the stored pbc must be a numpy bool array of 3 entries equal to the recorded one; len / natoms / atypes / str are '
+        'observers.')
 ASSUMPTIONS = [
     'numpy semantics used by Atoms/System are as transcribed in lean/Atomman/C06.lean (mini-numpy: basic slices are '
     'views, integer-list / boolean indexing, deepcopy, np.array(np.broadcast_to()), np.zeros copy; assignment '
@@ -140,6 +177,13 @@ ASSUMPTIONS = [
     'System.composition and str(system) are modelled as far as they touch the hidden tuples (composition completely: '
     'counts per type, None for a present type without symbol, gcd reduction, sorted symbols; str only through the '
     'natypes it prints)',
+    'box-relative reads are exact rationals in the model (Box.cartToRel); the implementation computes '
+    'np.inner(pos - origin, inv(vects).T) in doubles: compared exactly only on boxes for which the inverse numpy computes '
+    'equals the rational inverse (checked per box by the harness with Fractions) and on dyadic values; a singular box '
+    '(LinAlgError) is outside the model (Err.unmodelled, never generated)',
+    'an out-of-range INTEGER handed to Atoms[...] / prop(index=) / atoms_ix[...] selects nothing (Atoms.__intslice turns it '
+    'into the slice [i:i+1]): model = code, and the refusal clause asks for an IndexError only where the array itself is '
+    'indexed (keyed accessors, list indices)',
     'Python object identity / garbage collection is not modelled: an object that became unreachable stays in the model '
     'state (the invariant is proved for those as well)',
 ]
@@ -2241,8 +2285,9 @@ def gen_refusal(rng, W, O, OS, k, why=None):
             cls = 'i'
         ix = gen_valid_index(rng, n, nonempty=True)
         cnt = len(o_positions(n, ix))
-        if ix[0] == 'I':
-            ix, cnt = ['S', 0, n, None], n
+        as_setv = rng.random() < 0.5
+        if ix[0] == 'I' or as_setv:
+            ix, cnt = ['S', 0, n, None], n       # (whole-column assignment: the value is measured against natoms)
         wrong = [cnt, 2] if trail != [2] else [cnt, 4]
         if trail == [3, 3]:
             wrong = [cnt, 3, 2]
@@ -2254,11 +2299,10 @@ def gen_refusal(rng, W, O, OS, k, why=None):
                 wrong = rng.choice([[3, cnt], [cnt * 3]])
             elif trail == [3, 3]:
                 wrong = rng.choice([[cnt, 9], [cnt * 3, 3]] if cnt != 3 else [[cnt, 9]])
-        if rng.random() < 0.5:
+        if not as_setv:
             op = {'op': 'pset', 'o': h, 'key': key, 'ix': ix, 'val': gen_lit(rng, cls, wrong, key)}
         else:
-            op = {'op': 'setv', 'o': h, 'key': key, 'val': gen_lit(rng, cls, [n] + wrong[1:], key),
-                  'via': rng.choice(['view', 'attr'])}
+            op = {'op': 'setv', 'o': h, 'key': key, 'val': gen_lit(rng, cls, wrong, key), 'via': rng.choice(['view', 'attr'])}
         op.update(R)
         return op
     if why == 'missing-key':
@@ -3009,7 +3053,11 @@ MANIFEST = {
             'the record update with later duplicates winning and nothing else changing (also atoms[index] = other, '
             'property by property, overlap-safe), whole-column assignment overwrites in place, extend(other) is self rows '
             'followed by the cast donor rows with zero fill on either side; copying operations (list/bool index, deepcopy, prop(index), extend, constructor) '
-            'return objects in fresh buffers and leave every pre-existing object and buffer literally unchanged; one '
+            'return objects in fresh buffers and leave every pre-existing object and buffer literally unchanged; the reading '
+            'branches of atoms_prop(scale=True) are operations of the model as well: the keyed read changes nothing and '
+            'returns the exact box-relative image, atoms_prop(index=, scale=True) returns a fresh object for every index '
+            'form and leaves every operand reading the same, System(safecopy=True) never touches the given atoms, '
+            'deepcopy(system) carries the stored tuples; one '
             'lemma per refusal. Tied to the code by a differential run over random operation histories comparing '
             'replies, full state (stored tuples, read without any getter) and the complete memory-sharing relation after '
             'every operation, the observation order being part of the generated history (every getter is an operation of '
@@ -3018,8 +3066,9 @@ MANIFEST = {
     'note': 'Trusted: Lean kernel + propext/Classical.choice/Quot.sound; the hand-written model (tied by the '
             'correspondence only); numpy. Partial: closed forms of the values after extend, atoms[index] = other, '
             'prop_atype and new-key assignment are checked by correspondence and oracle on every run, not proved '
-            '(their invariant, freshness and frame are proved). One genuine defect found by the proof attempt and fixed '
-            'in /repo: atoms_prop(\'atype\', index, value, scale=True) stored atom types < 1.',
+            '(their invariant, freshness and frame are proved). Genuine defects found and fixed in /repo: '
+            'atoms_prop(\'atype\', index, value, scale=True) stored atom types < 1 (4a5d993, by the proof attempt); '
+            'prop_atype(key, vector, atype=t) on a new key made the value itself the column (778419b, round 3).',
     'technique': 'Lean 4 theorems over a hand-written two-layer model + differential correspondence on histories + '
                  'independent record-per-atom oracle on the real code',
 }
